@@ -1,7 +1,7 @@
 """C11 — schemas built from SDL contain exactly what the SDL declares."""
 import ast
 
-from .. import shapes, nodeshape, excflow
+from .. import boolx, shapes, nodeshape, excflow
 from ..model import AnalysisError, own_nodes, norm_stmt
 
 BUILDER = "py_gql.sdl.ast_type_builder"
@@ -240,6 +240,59 @@ def check(prog, run):
     # ---- T1 registry conservation
     rt = run.rule("T1", T1_TEXT, 2)
     registry_conservation(prog, run, rt)
+
+    # ---- N1 a declared `null` default is a default
+    rn = run.rule("N1", "wherever the SDL builder stores a default value (kwargs['default_value'] = ... or default_value=...), the "
+                        "decision that a default is present is taken on the AST slot (`<node>.default_value is not None`) or the "
+                        "stored value is the sentinel-carrying `_default_value` of an existing element; never on the coerced "
+                        "Python value, for which None means the declared default `null`", 4)
+    for f in prog.all_funcs():
+        if not f.module.name.startswith("py_gql.sdl"):
+            continue
+        astparams = {a.arg for a in f.node.args.args if a.annotation is not None and "_ast." in ast.unparse(a.annotation)}
+        for n in own_nodes(f.node):
+            stores = []
+            if isinstance(n, ast.Assign) and isinstance(n.targets[0], ast.Subscript) and isinstance(n.targets[0].slice, ast.Constant) \
+                    and n.targets[0].slice.value == "default_value":
+                stores.append((n, n.value))
+            if isinstance(n, ast.Call):
+                for k in n.keywords:
+                    if k.arg == "default_value":
+                        stores.append((n, k.value))
+            for site, val in stores:
+                run.looked_at(f)
+                guards = []
+                cur = site
+                while getattr(cur, "_parent", None) is not None and cur is not f.node:
+                    par = cur._parent
+                    if isinstance(par, (ast.If, ast.IfExp)) and cur is not par.test:
+                        guards.append(par.test)
+                    cur = par
+                if isinstance(val, ast.IfExp):
+                    guards.append(val.test)
+                rn.instance("%s: default_value <- %s under %s" % (f.qualname, norm_stmt(val)[:60], [norm_stmt(g) for g in guards]))
+                carried = isinstance(val, ast.Attribute) and val.attr == "_default_value"
+                if carried:
+                    continue
+                bad = []
+                for g in guards:
+                    for name in boolx.atoms(g):
+                        e = ast.parse(name, mode="eval").body
+                        subj = e.left if isinstance(e, ast.Compare) else e
+                        root = subj
+                        while isinstance(root, ast.Attribute):
+                            root = root.value
+                        is_slot = isinstance(subj, ast.Attribute) and isinstance(root, ast.Name) and root.id in astparams
+                        if not is_slot and "default" in name:
+                            bad.append(name)
+                if bad:
+                    run.report(rn, "%s:%s:presence-on-coerced-value(%s)" % (f.module.name, f.qualname, bad[0]), f.where(site),
+                               "whether a default exists is decided by `%s`, a Python-level value: a default declared as `null` "
+                               "coerces to None and is dropped (has_default_value becomes false, enclosing defaults lose the key, "
+                               "the printed SDL loses `= null`)" % bad[0])
+                elif not guards and not carried:
+                    run.report(rn, "%s:%s:unguarded-default" % (f.module.name, f.qualname), f.where(site),
+                               "default_value is stored unconditionally from %s: elements without a declared default get one" % norm_stmt(val)[:60])
 
     # ---- X1 only library errors
     r = run.rule("X1", "may-raise (explicit raises through resolved calls) of build_schema / extend_schema contains only "
